@@ -378,6 +378,26 @@ class Interp:
 
                 b, lo, hi = table[t]
                 return types.SimpleNamespace(bits=b, min=lo, max=hi, dtype=args[0])
+        if name in ("dataclasses.fields", "dataclasses.replace", "dataclasses.asdict", "dataclasses.astuple") and args and isinstance(args[0], (Obj, Class)):
+            k = args[0].cls if isinstance(args[0], Obj) else args[0]
+            names = []
+            for c in reversed(k.mro()):
+                for st in c.node.body:
+                    if isinstance(st, ast.AnnAssign) and isinstance(st.target, ast.Name) and st.target.id not in names and "ClassVar" not in ast.unparse(st.annotation):
+                        names.append(st.target.id)
+            if name == "dataclasses.fields" and len(args) == 1 and not kwargs:
+                import types
+
+                return tuple(types.SimpleNamespace(name=n) for n in names)
+            if isinstance(args[0], Obj) and all(n in args[0].attrs for n in names):
+                if name == "dataclasses.replace" and len(args) == 1 and all(k_ in names for k_ in kwargs):
+                    new = Obj(args[0].cls, dict(args[0].attrs))
+                    new.attrs.update(kwargs)
+                    return new
+                if name == "dataclasses.astuple" and len(args) == 1 and not kwargs:
+                    return tuple(args[0].attrs[n] for n in names)
+                if name == "dataclasses.asdict" and len(args) == 1 and not kwargs and not any(isinstance(args[0].attrs[n], (Obj, list, dict)) for n in names):
+                    return {n: args[0].attrs[n] for n in names}
         if name == "itertools.count" and len(args) <= 2 and not (set(kwargs) - {"start", "step"}):
             start = kwargs.get("start", args[0] if args else 0)
             step = kwargs.get("step", args[1] if len(args) > 1 else 1)
